@@ -1860,6 +1860,17 @@ def check_gcd_nonzero_at_shift(ctx, res, config="all"):
                 if callee_name(ct) == "trailing_zeros":
                     tz = (ci, ct)
                     break
+                # the count may be produced inside a closure handed to an Option combinator (`first().map_or(0, |d| d.trailing_zeros())`)
+                for a_ in ct["args"]:
+                    al_ = core.op_local(a_)
+                    for d_ in b.defs().get(al_, []) if al_ is not None else []:
+                        if d_[0] == "assign" and d_[3]["rv"]["k"] == "aggregate" and d_[3]["rv"].get("akind") == "closure":
+                            cb_ = facts.body(d_[3]["rv"]["closure"])
+                            for ci2, ct2 in (cb_.calls() if cb_ is not None else []):
+                                if callee_name(ct2) == "trailing_zeros":
+                                    tz = (ci, ct2)
+                if tz is not None:
+                    break
                 l = core.op_local(ct["args"][0]) if ct["args"] else None
                 if l is None and ct["args"]:
                     l = (core.op_place(ct["args"][0]) or {}).get("local")
@@ -1867,6 +1878,12 @@ def check_gcd_nonzero_at_shift(ctx, res, config="all"):
                 res.note("R3b-gcd-nonzero: an argument of min(..) in BigUint::gcd is not a trailing-zero count read from a call - not decided")
                 continue
             zi, zt = tz
+            if "core::num" in (callee(zt) or ""):
+                # the count is taken from one machine word (a digit), not from the number: at most BITS, however many zero
+                # digits the operands share
+                n += 1
+                res.fail(Finding("R3b-gcd-nonzero", "gcd|tz-of-a-digit#%d" % (n - 1), "BigUint::gcd takes a trailing-zero count that feeds the common power of two from a single digit (`%s`, line %s): operands whose common factor of two spans more than one digit lose it" % (callee(zt), zt["span"]["line"]), b0, zt["span"]["line"]))
+                continue
             r = _ref_base(b, zt["args"][0])
             if r is None:
                 res.note("R3b-gcd-nonzero: receiver of trailing_zeros() not resolved - not decided")
@@ -2181,6 +2198,127 @@ def check_digit_step_checked(ctx, res, config="all"):
     if nb < 700:
         res.fail(Finding("R3-anchor-lost", "digit-step", "only %d bodies scanned (floor 700)" % nb, file="src", line=0))
     res.clause("R3c: no overflow-checked `+= c` / `-= c` directly on an element of a digit slice without a test of that element (a carry/borrow must be propagated)")
+
+
+def _interval(b, op, depth=0):
+    """exact value range (lo, hi) of an unsigned integer operand built from constants, `% n`, `& m`, `+`, `c - x`, `>> k`,
+    `/ k`, `*` and lossless casts - None as soon as anything else is involved"""
+    if depth > 25:
+        return None
+    if op["k"] == "const":
+        v = core.op_const(op)
+        return (v, v) if isinstance(v, int) and v >= 0 else None
+    # a local that is a compile-time constant in disguise (`let bits_per_digit = u64::from(big_digit::BITS)`)
+    try:
+        from . import r4 as _r4
+
+        v = _r4.eval_int(b, op, {})
+        if isinstance(v, int) and not isinstance(v, bool) and v >= 0:
+            return (v, v)
+    except Exception:
+        pass
+    pl = core.op_place(op)
+    if pl is None:
+        return None
+    l = pl["local"]
+    fld = [e for e in pl["proj"] if e["k"] == "field"]
+    if [e for e in pl["proj"] if e["k"] not in ("field",)]:
+        return None
+    if b.is_param(l):
+        return None
+    ds = b.defs().get(l, [])
+    if len(ds) != 1 or ds[0][0] != "assign" or b.partial_defs().get(l):
+        return None
+    rv = ds[0][3]["rv"]
+    k = rv["k"]
+    if fld and not (k == "binop" and rv["op"].endswith("WithOverflow") and fld[0]["idx"] == 0):
+        return None
+    if k == "use":
+        return _interval(b, rv["op"], depth + 1)
+    if k == "cast" and rv["ck"] == "IntToInt":
+        from . import r2 as _r2
+
+        r = _interval(b, rv["op"], depth + 1)
+        ti = _r2.int_info(rv.get("to", ""))
+        if r is None or ti is None:
+            return None
+        top = (1 << (ti[1] - (1 if ti[0] else 0))) - 1
+        return r if r[1] <= top else None
+    if k == "binop":
+        o = rv["op"].replace("WithOverflow", "").replace("Unchecked", "")
+        a, c = rv["a"], rv["b"]
+        if o == "Rem":
+            rc_ = _interval(b, c, depth + 1)
+            if rc_ is not None and rc_[0] == rc_[1] and rc_[0] > 0:
+                ra = _interval(b, a, depth + 1)
+                n_ = rc_[0]
+                return (0, n_ - 1) if ra is None or ra[1] >= n_ else ra
+            return None
+        if o == "BitAnd":
+            for x_, y_ in ((a, c), (c, a)):
+                ry_ = _interval(b, y_, depth + 1)
+                if ry_ is not None and ry_[0] == ry_[1]:
+                    m_ = ry_[0]
+                    # exact only for masks of the form 2^k - 1
+                    return (0, m_) if m_ & (m_ + 1) == 0 else None
+            return None
+        ra, rc = _interval(b, a, depth + 1), _interval(b, c, depth + 1)
+        if ra is None or rc is None:
+            return None
+        if o == "Add":
+            return (ra[0] + rc[0], ra[1] + rc[1])
+        if o == "Sub":
+            return (ra[0] - rc[1], ra[1] - rc[0]) if ra[0] - rc[1] >= 0 else None
+        if o == "Mul":
+            return (ra[0] * rc[0], ra[1] * rc[1])
+        if o == "Shr" and rc[0] == rc[1]:
+            return (ra[0] >> rc[0], ra[1] >> rc[0])
+        if o == "Div" and rc[0] == rc[1] and rc[0] > 0:
+            return (ra[0] // rc[0], ra[1] // rc[0])
+    return None
+
+
+def check_shift_amount_range(ctx, res, config="all"):
+    """`x << s` / `x >> s` on a primitive with s >= the bit width is an overflow: the debug build panics, the release build
+    masks the amount.  Where the amount is built locally from constants and `% n` / `& m` its exact range is computed; a
+    range that reaches the width (`tz % 64 + 1` is 1..=64) is reported.  Amounts that come from anywhere else are not judged."""
+    facts = ctx.facts(config)
+    n_sh = n_dec = 0
+    for b in facts.bodies:
+        if not (b.file or "").startswith("src/"):
+            continue
+        live = None
+        for bi, t in b.terms("assert"):
+            if t.get("msg") != "Overflow" or t.get("expected") is not True:
+                continue
+            cl = core.op_local(t["cond"])
+            ds = b.defs().get(cl, []) if cl is not None else []
+            if len(ds) != 1 or ds[0][0] != "assign" or ds[0][3]["rv"]["k"] != "binop" or ds[0][3]["rv"]["op"] != "Lt":
+                continue
+            rv = ds[0][3]["rv"]
+            w = core.op_const(rv["b"]) if rv["b"]["k"] == "const" else None
+            if not isinstance(w, int):
+                continue
+            if live is None:
+                live = b.live_blocks()
+            if bi not in live:
+                continue
+            n_sh += 1
+            r = _interval(b, rv["a"])
+            if r is None:
+                continue
+            n_dec += 1
+            key = "%s|shift amount %d..=%d of %d" % (b.path, r[0], r[1], w)
+            if r[1] >= w:
+                res.fail(Finding("R3c-shift-range", key, "a shift amount computed here ranges over %d..=%d (line %s) but the shifted type has %d bits: for the top value the debug build panics (\"attempt to shift with overflow\") and the release build shifts by the amount modulo %d" % (r[0], r[1], t["span"]["line"], w, w), b, t["span"]["line"]))
+            else:
+                res.ok("R3c-shift-range", key, None, nontrivial=False)
+    res.distinct.add("R3c-shift-range:all")
+    res.count("overflow-checked shifts", n_sh)
+    res.count("overflow-checked shifts with a locally decidable amount", n_dec)
+    if config == "all" and n_sh < 20:
+        res.fail(Finding("R3-anchor-lost", "shift-range", "only %d overflow-checked shifts found (floor 20)" % n_sh, file="src", line=0))
+    res.clause("R3c: no shift amount whose locally computed exact range reaches the bit width of the shifted type (debug panic / release wrap)")
 
 
 # ------------------------------------------------------------------------------------------
